@@ -72,17 +72,51 @@ Proof.
   - rewrite IH. split; intros H; congruence.
 Qed.
 
-Lemma sig_cmp_erase_eq : forall a b, erase a = erase b -> sig_cmp a b = Eq.
+Lemma code_num_inj : forall x y, code_num x = code_num y -> x = y.
+Proof. intros x y H. destruct x, y; try reflexivity; discriminate H. Qed.
+
+Lemma code_num_lt : forall x, (code_num x < 15)%N.
+Proof. intros x. destruct x; reflexivity. Qed.
+
+(* Ord (after fix 668536e1) calls two signatures equal exactly when they are equal up to representation *)
+Theorem sig_cmp_eq_iff : forall a b, sig_cmp a b = Eq <-> erase a = erase b.
 Proof.
-  induction a as [c|r c IH|rk k rv v IHk IHv|r fs IH|r c IH] using tsig_ind'; intros b; destruct b as [c'|r' c'|rk' k' rv' v'|r' fs'|r' c'];
-    cbn [sig_cmp erase]; intros H; try discriminate H; try reflexivity.
-  - inversion H. apply IH; assumption.
-  - inversion H. rewrite IHk by assumption. apply IHv; assumption.
-  - inversion H as [Hm]. clear H. revert fs' Hm.
-    induction IH as [|x l1 Hx _ IHl]; intros [|y l2] Hm; cbn [map] in Hm; try discriminate Hm; [reflexivity|].
-    inversion Hm. rewrite Hx by assumption. apply IHl; assumption.
-  - inversion H. apply IH; assumption.
+  induction a as [c|r c IH|rk k rv v IHk IHv|r fs IH|r c IH] using tsig_ind'; intros b;
+    destruct b as [c'|r' c'|rk' k' rv' v'|r' fs'|r' c']; cbn [sig_cmp erase kind_rank];
+    try (split; [intros H; apply N.compare_eq in H; try discriminate H;
+                 pose proof (code_num_lt c) as L; try pose proof (code_num_lt c') as L'; lia
+                |intros H; discriminate H]).
+  - destruct (code_eqb c c') eqn:E.
+    + apply code_eqb_eq in E. subst. split; reflexivity.
+    + split; intros H.
+      * apply N.compare_eq in H. apply code_num_inj in H. subst. congruence.
+      * inversion H; subst. assert (code_eqb c' c' = true) by (apply code_eqb_eq; reflexivity). congruence.
+  - rewrite IH. split; intros H; congruence.
+  - split.
+    + intros H. destruct (sig_cmp k k') eqn:Ek; try discriminate H.
+      apply IHk in Ek. apply IHv in H. congruence.
+    + intros H. inversion H as [[Hk Hv]]. apply IHk in Hk. apply IHv in Hv. rewrite Hk. exact Hv.
+  - assert (G : forall l1 l2, Forall (fun a => forall b, sig_cmp a b = Eq <-> erase a = erase b) l1 ->
+        ((fix go (l1 l2 : list tsig) : comparison :=
+            match l1, l2 with
+            | [], [] => Eq
+            | [], _ :: _ => Lt
+            | _ :: _, [] => Gt
+            | x :: l1', y :: l2' => match sig_cmp x y with Eq => go l1' l2' | o => o end
+            end) l1 l2 = Eq <-> map erase l1 = map erase l2)).
+    { intros l1 l2 Hl. revert l2. induction Hl as [|x l1 Hx _ IHl]; intros [|y l2]; cbn [map];
+        try (split; intros H; discriminate H).
+      - split; reflexivity.
+      - split.
+        + intros H. destruct (sig_cmp x y) eqn:Exy; try discriminate H.
+          apply Hx in Exy. apply IHl in H. congruence.
+        + intros H. inversion H as [[H1 H2]]. apply Hx in H1. apply IHl in H2. rewrite H1. exact H2. }
+    rewrite (G fs fs' IH). split; intros H; congruence.
+  - rewrite IH. split; intros H; congruence.
 Qed.
+
+Lemma sig_cmp_erase_eq : forall a b, erase a = erase b -> sig_cmp a b = Eq.
+Proof. intros a b H. apply sig_cmp_eq_iff. exact H. Qed.
 
 (* ---------------------------------------------------------------- PartialEq<&str>: slices of strings without continuation bytes *)
 Definition noc (s : bytes) : Prop := Forall (fun b => is_cont b = false) s.
